@@ -111,12 +111,18 @@ struct Raw
   std::vector<const void*> ep, ip;
   bool foreign = false;
   bool sizes_ok = true; // _elements.size()==_elements_size.size() etc.
+  std::vector<double> sdt;            // _scalar_dt
+  std::vector<u64> pool;              // per non-null array: reference count and byte size in MemoryPool::_pool (0,0 if unregistered)
 };
 template<typename DT_, typename IT_> Raw get_raw(const Container<DT_, IT_>& c)
 {
   Raw r;
   r.si = c.get_scalar_index();
   r.foreign = c._foreign_memory;
+  for(auto v : c.get_scalar_dt()) r.sdt.push_back(double(v));
+  auto pool_info = [&](const void* p) { if(!p) return; auto it = MemoryPool::_pool.find(const_cast<void*>(p)); r.pool.push_back(it == MemoryPool::_pool.end() ? 0 : u64(it->second.counter)); r.pool.push_back(it == MemoryPool::_pool.end() ? 0 : u64(it->second.size)); };
+  for(auto q : c.get_elements()) pool_info(q);
+  for(auto q : c.get_indices()) pool_info(q);
   const auto& e = c.get_elements(); const auto& es = c.get_elements_size();
   const auto& x = c.get_indices(); const auto& xs = c.get_indices_size();
   r.sizes_ok = (e.size() == es.size()) && (x.size() == xs.size());
@@ -160,6 +166,8 @@ struct Model
 /// canonical layout: what the arrays of a container must be
 struct Lay
 {
+  std::vector<double> sdt;   // _scalar_dt (none of the matrix formats uses it)
+  bool foreign = false;
   std::vector<Index> si;
   std::vector<std::vector<double>> el;
   std::vector<std::vector<u64>> ix;
@@ -236,7 +244,7 @@ static Lay expected(const Model& M)
 /// canonical layout of the real container (Banded padding masked, a single null/empty data array dropped)
 static Lay actual(const Raw& r, int node)
 {
-  Lay L; L.si = r.si; L.el = r.el; L.ix = r.ix;
+  Lay L; L.si = r.si; L.el = r.el; L.ix = r.ix; L.sdt = r.sdt; L.foreign = r.foreign;
   if(node_fmt[node] == F_BAND && r.si.size() >= 5 && r.ix.size() == 1 && r.el.size() == 1)
   {
     const Index m = r.si[1], n = r.si[2];
@@ -248,7 +256,7 @@ static Lay actual(const Raw& r, int node)
 }
 static bool lay_eq(const Lay& a, const Lay& b)
 {
-  if(a.si != b.si || a.ix != b.ix || a.el.size() != b.el.size()) return false;
+  if(a.si != b.si || a.ix != b.ix || a.el.size() != b.el.size() || a.sdt != b.sdt || a.foreign != b.foreign) return false;
   for(size_t k = 0; k < a.el.size(); ++k)
   {
     if(a.el[k].size() != b.el[k].size()) return false;
@@ -269,6 +277,7 @@ static std::string key_of(const Lay& L, int node)
   std::string k;
   auto put = [&](const void* p, size_t n) { k.append(static_cast<const char*>(p), n); };
   put(&node, sizeof node);
+  { u64 f = L.foreign ? 1 : 0; put(&f, 8); u64 n = L.sdt.size(); put(&n, 8); if(!L.sdt.empty()) put(L.sdt.data(), L.sdt.size() * 8); }
   u64 t = L.si.size(); put(&t, 8); for(auto v : L.si) { u64 w = v; put(&w, 8); }
   t = L.el.size(); put(&t, 8); for(auto& a : L.el) { t = a.size(); put(&t, 8); if(!a.empty()) put(a.data(), a.size() * 8); }
   t = L.ix.size(); put(&t, 8); for(auto& a : L.ix) { t = a.size(); put(&t, 8); if(!a.empty()) put(a.data(), a.size() * 8); }
@@ -448,7 +457,14 @@ static void ops_for(const Model& M, std::vector<Op>& out, verif::Ctx& c, bool co
 }
 
 /// reference semantics
+static void model_step_raw(Model& M, const Op& o);
 static void model_step(Model& M, const Op& o)
+{
+  model_step_raw(M, o);
+  // values held in a float container are rounded to float (exact emulation of the element-wise cast)
+  if(node_dt[M.node] == 1) for(double& v : M.D) v = double(float(v));
+}
+static void model_step_raw(Model& M, const Op& o)
 {
   switch(o.k)
   {
@@ -500,6 +516,10 @@ template<typename MT_> void do_permute(MT_& mat, const std::vector<Index>& P, co
 
 /// Executes the real operation. Non-mutating ops return a new object and leave X alone; mutating ops
 /// change *X and return it.
+/// when set, operations on fresh targets use the alternative public overloads: x.transpose() / x.clone(mode) returning
+/// by value and the converting constructor MT(x) instead of t.transpose(x) / t.clone(x, mode) / t.convert(x)
+static bool g_alt = false;
+constexpr bool has_conv_ctor(int n) { return c_fmt(n) == F_CSR || c_fmt(n) == F_CSCR || c_fmt(n) == F_BAND; }
 template<int NT_> std::unique_ptr<ObjT<NT_>> take_target(ObjP* target)
 {
   if(target && *target && (*target)->node == NT_) return std::unique_ptr<ObjT<NT_>>(static_cast<ObjT<NT_>*>(target->release()));
@@ -519,13 +539,19 @@ static ObjP apply_op(const Op& o, ObjP& X, const Model& M, ObjP* target = nullpt
       for_each_node([&](auto NT)
       {
         constexpr int nt = decltype(NT)::value;
-        if constexpr(conv_ok(ns, nt)) { if(o.a == nt) { auto y = take_target<nt>(target); y->mat.convert(x.mat); Y = std::move(y); } }
+        if constexpr(conv_ok(ns, nt)) { if(o.a == nt)
+        {
+          auto y = take_target<nt>(target);
+          if constexpr(has_conv_ctor(nt) && nt != ns) { if(g_alt && !target) y->mat = typename NodeT<nt>::type(x.mat); else y->mat.convert(x.mat); }
+          else y->mat.convert(x.mat);
+          Y = std::move(y);
+        } }
       });
       break;
     case O_CLONE:
     {
       auto y = take_target<ns>(target);
-      y->mat.clone(x.mat, CloneMode(o.a));
+      if(g_alt && !target) y->mat = x.mat.clone(CloneMode(o.a)); else y->mat.clone(x.mat, CloneMode(o.a));
       Y = std::move(y);
       break;
     }
@@ -551,7 +577,7 @@ static ObjP apply_op(const Op& o, ObjP& X, const Model& M, ObjP* target = nullpt
         else
         {
           auto y = take_target<nt>(target);
-          y->mat.transpose(x.mat);
+          if(g_alt && !target) y->mat = x.mat.transpose(); else y->mat.transpose(x.mat);
           Y = std::move(y);
         }
       }
@@ -671,9 +697,18 @@ template<typename F> void write_values(Obj& Y, F&& f)
 }
 
 // ------------------------------------------------------------------------------------------------ start states
-struct Start { int node; Index m, n; u64 pattern; bool default_ctor; }; // pattern over native blocks for BCSR
+struct Start { int node; Index m, n; u64 pattern; bool default_ctor; int va = 0; }; // pattern over native blocks for BCSR; va = value alphabet
 
 static double pos_value(Index i, Index j) { return (((i + j) & 1) ? -1.0 : 1.0) * double(1 + 8 * i + j) / 4.0; }
+/// value alphabets: 0 = distinct exact dyadics with alternating sign; 1 = special values (stored exact zero, -0, +-1, values that
+/// round when converted to float, float-range extremes, a float denormal); 2 = all negative
+static double alpha_value(int va, Index i, Index j)
+{
+  if(va == 0) return pos_value(i, j);
+  if(va == 2) return -double(1 + 8 * i + j) / 4.0;
+  static const double sp[10] = {0.0, 1.0, -1.0, -0.0, 1e30, -1e-30, 0.1, 3e38, 1e-40, -1.0 / 3.0};
+  return sp[(3 * i + j) % 10];
+}
 
 static Model start_model(const Start& s)
 {
@@ -683,7 +718,7 @@ static Model start_model(const Start& s)
   for(Index i = 0; i < s.m; ++i) for(Index j = 0; j < s.n; ++j)
   {
     const bool on = (node_fmt[s.node] == F_DENSE) || ((s.pattern >> ((i / bh) * BN + j / bw)) & 1u);
-    if(on) { M.S[i * s.n + j] = 1; M.D[i * s.n + j] = pos_value(i, j); }
+    if(on) { M.S[i * s.n + j] = 1; M.D[i * s.n + j] = alpha_value(s.va, i, j); }
   }
   return M;
 }
@@ -725,6 +760,7 @@ static std::string start_desc(const Start& s)
 {
   std::ostringstream o;
   o << node_name[s.node] << " " << s.m << "x" << s.n;
+  if(s.va) o << (s.va == 1 ? " values=special(0,-0,+-1,1e30,-1e-30,0.1,3e38,1e-40,-1/3)" : " values=all-negative");
   if(s.default_ctor) o << " default-constructed";
   else if(node_fmt[s.node] != F_DENSE)
   {
@@ -756,6 +792,7 @@ struct Search
   Search(verif::Ctx& cc, const Start& s) : c(cc), st(s) {}
 
   bool in_child = false;
+  unsigned alt_counter = 0;
   static char* shm()
   {
     static char* p = static_cast<char*>(mmap(nullptr, 65536, PROT_READ | PROT_WRITE, MAP_SHARED | MAP_ANONYMOUS, -1, 0));
@@ -833,6 +870,31 @@ struct Search
     return ok;
   }
 
+  /// operator()(i,j) for the whole matrix as the very first access to a freshly produced container (before any raw
+  /// array is looked at and before any other accessor), compared with the reference
+  void first_access(Obj& Y, const Model& M, const std::string& opn)
+  {
+    if(M.nnz() == 0 || M.m * M.n == 0) return;
+    bool ok = true;
+    visit(Y, [&](auto& y, auto NY)
+    {
+      constexpr int ny = decltype(NY)::value; constexpr int f = NodeT<ny>::fmt;
+      const Index bh = Index(NodeT<ny>::bh), bw = Index(NodeT<ny>::bw);
+      if(Y.node != M.node) return;
+      for(Index i = 0; i < M.m / bh && ok; ++i) for(Index j = 0; j < M.n / bw && ok; ++j)
+      {
+        if constexpr(f == F_BCSR)
+        {
+          auto blk = y.mat(i, j);
+          for(Index r = 0; r < bh; ++r) for(Index q = 0; q < bw; ++q) if(double(blk(int(r), int(q))) != M.D[(i * bh + r) * M.n + j * bw + q]) ok = false;
+        }
+        else { if(double(y.mat(i, j)) != M.D[i * M.n + j]) ok = false; }
+      }
+    });
+    c.count("first_access_observations");
+    if(!ok) fail_once(opn + ": operator()(i,j) as first access differs from the reference", "");
+  }
+
   /// multiplies the data arrays of Y by 2 through the raw pointers (or restores them)
   static void scale_values(Obj& Y, double f)
   {
@@ -849,6 +911,39 @@ struct Search
       auto& e = y.mat._elements; auto& es = y.mat._elements_size;
       for(size_t k = 0; k < e.size(); ++k) for(Index i = 0; i < es[k]; ++i) e[k][i] = typename std::remove_reference<decltype(e[k][i])>::type(v);
     });
+  }
+
+  /// MemoryPool bookkeeping of the result: every array registered with the rounded byte size and exactly one reference
+  /// per holder (the result itself plus the source if it shares the array)
+  bool check_pool(const Raw& ry, const Raw* rx, int node, const std::string& opn)
+  {
+    bool ok = true; size_t q = 0;
+    for(int pass = 0; pass < 2; ++pass)
+    {
+      const auto& ptr = pass ? ry.ip : ry.ep; const auto& arr_ix = ry.ix; const auto& arr_el = ry.el;
+      for(size_t k = 0; k < ptr.size(); ++k)
+      {
+        if(!ptr[k]) continue;
+        if(q + 1 >= ry.pool.size()) return ok;
+        const u64 cnt = ry.pool[q], bytes = ry.pool[q + 1]; q += 2;
+        const u64 n = pass ? arr_ix[k].size() : arr_el[k].size();
+        const u64 eb = pass ? (node_it[node] ? 4 : 8) : (node_dt[node] ? 4 : 8);
+        const u64 want_bytes = (n % 4 == 0 ? n : n + 4 - n % 4) * eb;
+        u64 holders = 1;
+        if(rx) { for(auto x : rx->ep) if(x == ptr[k]) ++holders; for(auto x : rx->ip) if(x == ptr[k]) ++holders; }
+        if(cnt == 0) { fail_once(opn + ": array of the result is not registered in MemoryPool", ""); ok = false; }
+        else if(cnt != holders) { fail_once(opn + ": MemoryPool reference count of a result array differs from the number of containers holding it", "count=" + std::to_string(cnt) + " holders=" + std::to_string(holders)); ok = false; }
+        else if(bytes != want_bytes) { fail_once(opn + ": MemoryPool byte size of a result array differs from its length", "bytes=" + std::to_string(bytes) + " expected=" + std::to_string(want_bytes)); ok = false; }
+      }
+    }
+    c.count("pool_bookkeeping_checks");
+    return ok;
+  }
+  void check_pool_empty(const char* where)
+  {
+    if(MemoryPool::_pool.empty()) return;
+    fail_once(std::string("MemoryPool not empty ") + where + " (leaked or over-counted array)", "chunks=" + std::to_string(MemoryPool::_pool.size()));
+    while(!MemoryPool::_pool.empty()) { auto it = MemoryPool::_pool.begin(); ::free(it->first); MemoryPool::_pool.erase(it); }
   }
 
   /// pointer identity and write-through behaviour between the result Y and its source X
@@ -881,12 +976,12 @@ struct Search
       if(!(exp & 2) && any) { fail_once(opn + ": index arrays unexpectedly shared with the source", ""); ok = false; }
     }
     // write through the result, observe the source
-    if(values_defined) scale_values(Y, 2.0); else fill_values(Y, 3.0);
+    if(values_defined) scale_values(Y, -1.0); else fill_values(Y, 3.0);
     const Raw rx2 = raw_of(X);
     bool changed = false;
     for(size_t k = 0; k < rx.el.size(); ++k)
       if(!rx.el[k].empty() && memcmp(rx.el[k].data(), rx2.el[k].data(), rx.el[k].size() * sizeof(double)) != 0) changed = true;
-    bool nonzero = false; for(auto& a : rx.el) for(double v : a) if(v != 0.0) nonzero = true;
+    const bool nonzero = true;   // the probe flips signs, which changes the bit pattern of every value including zeros
     if(nonzero || !values_defined)
     {
       const bool has_data = !rx.el.empty() && !rx.el[0].empty();
@@ -894,11 +989,11 @@ struct Search
       if(!(exp & 1) && changed) { fail_once(opn + ": write through the result changed the source (should be value-independent)", ""); ok = false; }
     }
     if(rx2.ix != rx.ix || rx2.si != rx.si) { fail_once(opn + ": source layout changed by a write through the result", ""); ok = false; }
-    if(values_defined) scale_values(Y, 0.5);
+    if(values_defined) scale_values(Y, -1.0);
     {
       // the other direction: write through the source, observe the result
       const Raw ry1 = raw_of(Y);
-      scale_values(X, 2.0);
+      scale_values(X, -1.0);
       const Raw ry2 = raw_of(Y);
       bool ychanged = false;
       for(size_t k = 0; k < ry1.el.size() && k < ry2.el.size(); ++k)
@@ -907,7 +1002,7 @@ struct Search
       if((exp & 1) && has_data && nonzero && !ychanged) { fail_once(opn + ": write through the source is not visible in the result (should alias)", ""); ok = false; }
       if(!(exp & 1) && ychanged) { fail_once(opn + ": write through the source changed the result (should be value-independent)", ""); ok = false; }
       if(ry2.ix != ry1.ix || ry2.si != ry1.si) { fail_once(opn + ": result layout changed by a write through the source", ""); ok = false; }
-      scale_values(X, 0.5);
+      scale_values(X, -1.0);
     }
     c.count("aliasing_probes");
     return ok;
@@ -1018,6 +1113,18 @@ struct Search
       const std::string& opn = op_name(o, ns);
       const bool defined = !(o.k == O_LAYOUT || (is_clone(o) && (o.a == int(CloneMode::Layout) || o.a == int(CloneMode::Allocate))));
       const bool idx_defined = !(is_clone(o) && o.a == int(CloneMode::Allocate));
+      {
+        // the same call a second time on the already filled target
+        Model Mt; ObjP X = replay(hist, Mt);
+        ObjP T = apply_op(o, X, M);
+        if(T && T->node == nt)
+        {
+          ObjP Y = apply_op(o, X, M, &T);
+          c.count("transitions"); c.count("relative_scenarios"); c.count("second_invocations");
+          if(Y) { const Raw ry = raw_of(*Y); check_state(*Y, ry, M2, opn + " repeated on the already filled target", M, defined, idx_defined); const Raw rxx = raw_of(*X); check_pool(ry, &rxx, Y->node, opn + " repeated on the already filled target"); }
+          if(okey(*X) != kx) fail_once(opn + " repeated on the already filled target: source matrix modified", "");
+        }
+      }
       static const int var_trans[7][2] = {{0, R_WEAK}, {1, R_WEAK}, {0, R_LAYOUT}, {1, R_LAYOUT}, {1, R_CTOR_LAYOUT}, {2, R_WEAK}, {2, R_LAYOUT}};
       static const int var_other[3][2] = {{1, R_WEAK}, {0, R_LAYOUT}, {2, R_WEAK}};
       const int nvar = (o.k == O_TRANS) ? 7 : 3;
@@ -1085,20 +1192,20 @@ struct Search
           const bool has_data = !rx.el.empty() && !rx.el[0].empty();
           if(has_data && shared != alias) fail_once(opn + (alias ? ": data array not shared with the source" : ": data array unexpectedly shared with the source"), "");
           if(ishared) fail_once(opn + ": index arrays of different type shared with the source", "");
-          bool nonzero = false; for(auto& a : rx.el) for(double v : a) if(v != 0.0) nonzero = true;
+          const bool nonzero = true;
           if(has_data && nonzero)
           {
             auto scale_y = [&](double f) { for(size_t k = 0; k < y._elements.size(); ++k) for(Index i = 0; i < y._elements_size[k]; ++i) y._elements[k][i] = DT(double(y._elements[k][i]) * f); };
             if(copies)
             {
-              scale_y(2.0);
+              scale_y(-1.0);
               const bool xch = okey(X) != kx;
-              scale_y(0.5);
+              scale_y(-1.0);
               if(xch != alias) fail_once(opn + (alias ? ": write through the clone is not visible in the source (should alias)" : ": write through the clone changed the source (should be value-independent)"), "");
             }
-            scale_values(X, 2.0);
+            scale_values(X, -1.0);
             const Raw ry2 = get_raw(y);
-            scale_values(X, 0.5);
+            scale_values(X, -1.0);
             bool ych = false;
             for(size_t k = 0; k < ry.el.size(); ++k) if(!ry.el[k].empty() && memcmp(ry.el[k].data(), ry2.el[k].data(), ry.el[k].size() * sizeof(double)) != 0) ych = true;
             if(ych != alias) fail_once(opn + (alias ? ": write through the source is not visible in the clone (should alias)" : ": write through the source changed the clone (should be value-independent)"), "");
@@ -1109,6 +1216,109 @@ struct Search
     });
   }
 
+  // ---------------------------------------------------------------------------------------------- derived objects
+  enum { D_WEAK = 0, D_SHALLOW, D_DEEP, D_MOVE_CTOR, D_MOVE_ASSIGN, D_CONVERT_SAME, D_ROUNDTRIP, D_N };
+  static const char* derived_name(int k)
+  {
+    static const char* n[D_N] = {"Weak clone", "Shallow clone", "Deep clone", "move-constructed copy", "move-assigned copy", "same-type convert()", "convert to another DT/IT and back"};
+    return n[k];
+  }
+  /// copy-like derivation of *X; X stays alive as the bystander (hollow after the two moves)
+  static ObjP make_derived(int kind, ObjP& X)
+  {
+    ObjP R;
+    visit(*X, [&](auto& x, auto NS)
+    {
+      constexpr int ns = decltype(NS)::value;
+      typedef typename NodeT<ns>::type MS;
+      auto y = std::make_unique<ObjT<ns>>();
+      switch(kind)
+      {
+      case D_WEAK: y->mat.clone(x.mat, CloneMode::Weak); break;
+      case D_SHALLOW: y->mat.clone(x.mat, CloneMode::Shallow); break;
+      case D_DEEP: y->mat.clone(x.mat, CloneMode::Deep); break;
+      case D_MOVE_CTOR: { MS tmp(std::move(x.mat)); y->mat = std::move(tmp); break; }
+      case D_MOVE_ASSIGN: y->mat.clone(x.mat, CloneMode::Deep); y->mat = std::move(x.mat); break;
+      case D_CONVERT_SAME: y->mat.convert(x.mat); break;
+      case D_ROUNDTRIP:
+      {
+        bool done = false;
+        for_each_node([&](auto NT)
+        {
+          constexpr int nt = decltype(NT)::value;
+          if constexpr(xclone_ok(ns, nt) && xclone_ok(nt, ns))
+          {
+            if(!done) { typename NodeT<nt>::type tmp; tmp.convert(x.mat); y->mat.convert(tmp); done = true; }
+          }
+        });
+        if(!done) return;
+        break;
+      }
+      }
+      R = std::move(y);
+    });
+    return R;
+  }
+
+  /// pattern "derived objects": every copy-like derivation of the state gets the core operation set applied to it while
+  /// the source is alive; results must match the reference, the source must stay intact
+  void derived_phase(const std::vector<Op>& hist, const Model& M, const std::string& kx)
+  {
+    if(M.nnz() == 0) return;
+    lazy_hist = &hist; lazy_op = nullptr; lazy_model = nullptr;
+    const int ns = M.node;
+    // values that went through a float container are rounded: the round trip is only the identity on representable values
+    Model Mrt = M; for(double& v : Mrt.D) v = double(float(v));
+    std::vector<Op> all, core;
+    ops_for(M, all, c, false);
+    int nperm = 0;
+    for(const Op& o : all)
+    {
+      if(o.k == O_PERM) { if(o.a == 0 && o.b == 0) continue; if(++nperm % 13 != 1) continue; }
+      if(o.k == O_CLONE && (o.a == int(CloneMode::Layout) || o.a == int(CloneMode::Allocate))) continue;
+      if(o.k == O_XCLONE && !(o.a == int(CloneMode::Weak) || o.a == int(CloneMode::Deep))) continue;
+      if(o.k == O_LAYOUT && o.a != 0) continue;
+      core.push_back(o);
+    }
+    for(int kind = 0; kind < D_N; ++kind)
+    {
+      const bool moved = (kind == D_MOVE_CTOR || kind == D_MOVE_ASSIGN);
+      const bool full_alias = (kind == D_SHALLOW || kind == D_CONVERT_SAME);
+      const bool lossy = (kind == D_ROUNDTRIP && key_of(expected(Mrt), ns) != key_of(expected(M), ns));
+      if(lossy) { c.count("derived_roundtrips_skipped_lossy"); continue; }
+      const std::string dn = derived_name(kind);
+      {
+        // the derivation itself
+        Model Mt; ObjP X = replay(hist, Mt);
+        ObjP Y = make_derived(kind, X);
+        if(!Y) continue;
+        c.count("transitions"); c.count("derived_objects");
+        const Raw ry = raw_of(*Y);
+        if(!check_state(*Y, ry, M, std::string("derived object (") + dn + ") of " + node_name[ns], M, true)) continue;
+        const Raw rx = raw_of(*X);
+        if(moved) { if(!rx.ep.empty() || !rx.ip.empty()) fail_once(std::string("moved-from ") + node_name[ns] + " still holds arrays", ""); }
+        else if(okey(*X) != kx) fail_once(std::string("derived object (") + dn + ") of " + node_name[ns] + ": source matrix modified", "");
+      }
+      for(const Op& o : core)
+      {
+        Model Mt; ObjP X = replay(hist, Mt);
+        ObjP Y = make_derived(kind, X);
+        if(!Y) break;
+        Model M2 = M; model_step(M2, o);
+        const std::string opn = op_name(o, ns) + " applied to a " + dn;
+        const bool mut = is_mutating(o);
+        ObjP Z = apply_op(o, Y, M);
+        c.count("transitions"); c.count("derived_object_operations");
+        if(!Z) continue;
+        const Raw rz = raw_of(*Z);
+        const bool defined = !(o.k == O_LAYOUT || (is_clone(o) && (o.a == int(CloneMode::Layout) || o.a == int(CloneMode::Allocate))));
+        check_state(*Z, rz, M2, opn, M, defined, !(is_clone(o) && o.a == int(CloneMode::Allocate)));
+        if(!mut && okey(*Y) != kx) fail_once(opn + ": the operand itself was modified", "");
+        if(!moved && !(mut && full_alias) && okey(*X) != kx) fail_once(opn + ": changes the matrix the operand was derived from", "now " + lay_str(actual(raw_of(*X), ns)));
+      }
+    }
+  }
+
   ObjP replay(const std::vector<Op>& h, Model& M)
   {
     M = start_model(st);
@@ -1117,6 +1327,7 @@ struct Search
     return X;
   }
 
+  int derived_depth = 1;
   void run(int max_depth)
   {
     Model M0 = start_model(st);
@@ -1138,6 +1349,9 @@ struct Search
       for(const Frontier& fr : frontier)
       {
         if(c.cut()) { c.capped("deadline inside BFS"); return; }
+        c.heartbeat();
+        lazy_hist = &fr.hist; lazy_op = nullptr; lazy_model = nullptr;
+        check_pool_empty("after all containers of the previous state were destroyed");
         Model M;
         ObjP X = replay(fr.hist, M);
         const Raw rx = raw_of(*X);
@@ -1159,9 +1373,8 @@ struct Search
           // temporary row pointer on the pinned tree (undefined behaviour, differs from process to process), so the
           // transition is executed and checked in a child only and not expanded; the same CSCR states are reached
           // through CSCR(csr,mirror), the same CSR states are the ones the CSCR matrix came from
-          const bool child_only = (o.k == O_CONV && M.has_empty_row() &&
-            ((node_fmt[M.node] == F_CSCR && node_fmt[o.a] == F_CSR) || (node_fmt[M.node] == F_CSR && node_fmt[o.a] == F_CSCR)));
-          const bool risky = (M.nnz() == 0) || child_only;
+          const bool child_only = false;   // (was needed while the generic CSR<->CSCR conversion had undefined behaviour for empty rows)
+          const bool risky = (M.nnz() == 0);
           if(risky)
           {
             // operations on entry-free operands (and the generic CSCR conversions with empty rows) may dereference
@@ -1204,12 +1417,17 @@ struct Search
           }
           ObjP Xm; Model Mm;
           if(mut) Xm = replay(fr.hist, Mm);
+          g_alt = ((++alt_counter) & 1) != 0;
           ObjP Y = apply_op(o, mut ? Xm : X, M);
+          if(g_alt) c.count("alternative_overload_transitions");
+          g_alt = false;
           c.count("transitions");
           c.count("traces_validated_against_impl");
           if(!Y) { fail_once(opn + ": harness could not apply", ""); continue; }
+          if(defined && (alt_counter & 2)) first_access(*Y, M2, opn);
           const Raw ry = raw_of(*Y);
           bool ok = check_state(*Y, ry, M2, opn, M, defined, idx_defined);
+          if(ok) ok = check_pool(ry, mut ? nullptr : &rx, Y->node, opn);
           if(!mut)
           {
             // the source must be untouched (bitwise)
@@ -1255,6 +1473,7 @@ struct Search
         lazy_hist = &fr.hist; lazy_op = nullptr; lazy_model = nullptr;
         xclone_it_leaves(*X, rx, M, kx);
         relatives_phase(fr.hist, M, kx);
+        if(depth <= derived_depth) derived_phase(fr.hist, M, kx);
         {
           // the phase must leave the state itself untouched
           Model Mz; ObjP Xz = replay(fr.hist, Mz);
@@ -1263,6 +1482,8 @@ struct Search
       }
       frontier.swap(next);
     }
+    lazy_hist = nullptr; cur_hist = " (end of case)";
+    check_pool_empty("at the end of the case");
   }
 
   std::string hist_str(const std::vector<Op>& h)
@@ -1309,6 +1530,22 @@ int main(int argc, char** argv)
     for(Index bm = 1; bm <= 2; ++bm) for(Index bn = 1; bn <= 2; ++bn)
       for(u64 p = 0; p < (u64(1) << (bm * bn)); ++p) starts.push_back(Start{N_B23_D64, bm * 2, bn * 3, p, false});
     starts.push_back(Start{N_B23_D64, 6, 15, 0, false});
+    // value alphabets 1 (special values) and 2 (all negative) on a few patterns of every shape
+    for(int va = 1; va <= 2; ++va)
+    {
+      for(Index m = 1; m <= 3; ++m) for(Index n = 1; n <= 3; ++n)
+      {
+        const u64 full = (u64(1) << (m * n)) - 1;
+        u64 checker = 0, lower = 0;
+        for(Index i = 0; i < m; ++i) for(Index j = 0; j < n; ++j) { if(((i + j) & 1) == 0) checker |= u64(1) << (i * n + j); if(j <= i) lower |= u64(1) << (i * n + j); }
+        std::set<u64> ps = {full, checker, lower};
+        for(u64 q : ps) starts.push_back(Start{N_CSR_D64, m, n, q, false, va});
+      }
+      starts.push_back(Start{N_DENSE_D64, 2, 3, 0, false, va});
+      starts.push_back(Start{N_DENSE_D64, 3, 3, 0, false, va});
+      starts.push_back(Start{N_B23_D64, 4, 6, 15, false, va});
+      starts.push_back(Start{N_B23_D64, 2, 6, 2, false, va});
+    }
     const size_t n_quick = starts.size();
     if(c.thorough)
     {
@@ -1324,9 +1561,10 @@ int main(int argc, char** argv)
       c.desc([&] { return start_desc(s); });
       const int depth = c.thorough ? (si < n_quick ? 4 : 2) : 3;
       Search S(c, s);
+      S.derived_depth = c.thorough ? 2 : 1;
       S.run(depth);
       const Model M = start_model(s);
-      if(M.nnz() > 0) c.nontrivial(verif::Hash().pod(s.node).pod(s.m).pod(s.n).pod(s.pattern).get());
+      if(M.nnz() > 0) c.nontrivial(verif::Hash().pod(s.node).pod(s.m).pod(s.n).pod(s.pattern).pod(s.va).get());
       c.count("bfs_cases");
     }
   });
